@@ -16,8 +16,8 @@ import (
 // vChain is the blockchain interface with scripted, symbolic answers; it records what is sent.
 type vChain struct {
 	sent    [][]byte
-	seqnos  [4]uint32
-	errs    [4]bool
+	seqnos  [12]uint32
+	errs    [12]bool
 	polls   int
 	state   tlb.ShardAccount
 	stateEr bool
@@ -29,8 +29,8 @@ func (vErr) Error() string { return "scripted error" }
 
 func (c *vChain) GetSeqno(ctx context.Context, account ton.AccountID) (uint32, error) {
 	i := c.polls
-	if i > 3 {
-		i = 3
+	if i > 11 {
+		i = 11
 	}
 	c.polls++
 	if c.errs[i] {
@@ -78,6 +78,12 @@ func VH_C14_send(ver int, k int) {
 	var msgs []RawMessage
 	for i := 0; i < k; i++ {
 		c := boc.NewCell()
+		if k > 4 {
+			// the over-the-limit instances only decide "refused before anything is sent": concrete bodies
+			_ = c.WriteUint(uint64(i), 16)
+			msgs = append(msgs, RawMessage{Message: c, Mode: 3})
+			continue
+		}
 		for b := 0; b < 8; b++ {
 			_ = c.WriteBit(zzvrt.NondetBool("body"))
 		}
